@@ -118,6 +118,27 @@ func TestVerifReplayC11(t *testing.T) {
 	if string(raw) != want && !(strings.HasSuffix(all, "\n") && !failedHard) {
 		bad = append(bad, fmt.Sprintf("consumer saw %q under %s, want %q", raw, key, want))
 	}
+	// .Output as every executed command saw it: the previous command's output (empty for the first)
+	if seenRaw, err := os.ReadFile(seenOut); err == nil {
+		quoteSafe := true
+		for _, o := range outs {
+			if strings.ContainsAny(o, "'|") {
+				quoteSafe = false
+			}
+		}
+		if quoteSafe {
+			seen := strings.Split(strings.TrimSuffix(string(seenRaw), "|"), "|")
+			for k := 0; k < executed && k < len(seen); k++ {
+				wantSeen := ""
+				if k > 0 {
+					wantSeen = outs[k-1]
+				}
+				if seen[k] != wantSeen {
+					bad = append(bad, fmt.Sprintf("command %d saw .Output %q, the previous command printed %q", k, seen[k], wantSeen))
+				}
+			}
+		}
+	}
 	fmt.Printf("REPLAY: name=%q key=%s outputs=%q captured=%q consumer=%q err=%v\n", name, key, outs[:executed], p.Output(), raw, perr)
 	if len(bad) > 0 {
 		fmt.Println("REPLAY: reproduced:", strings.Join(bad, "; "))
